@@ -338,8 +338,7 @@ class Stmts:
     def s_While(self, s, st):
         if s.orelse:
             raise Unsupported("while/else")
-        n = self.n_loop
-        self.n_loop += 1
+        n = self.loop_ordinal(s)
         return self._loop(n, s, st, kind="while")
 
     def s_For(self, s, st):
@@ -354,8 +353,7 @@ class Stmts:
             if items is not None and len(items) <= 8:
                 outs += self._for_unrolled(s, items, r.st)
                 continue
-            n = self.n_loop
-            self.n_loop += 1
+            n = self.loop_ordinal(s)
             outs += self._loop(n, s, r.st, kind="for", itv=itv)
         return outs
 
@@ -387,7 +385,7 @@ class Stmts:
         if kind == "for":
             elem_of, length = iter_symbolic(self, itv, st)
             k0 = z3.IntVal(0)
-            lv = {"k": k0, "n": length, "iter": itv}
+            lv = {"k": k0, "n": length, "iter": itv, "elem": elem_of}
         entry = st.snapshot()
         inv0 = spec.inv(n, entry, st, self.a_stack[-1], dict(lv, env=st.env))
         if inv0 is None:
@@ -410,7 +408,7 @@ class Stmts:
         if kind == "for":
             k = h.fresh_int(f"k{n}")
             h.assume(z3.And(k >= 0, k <= length))
-            lv = {"k": k, "n": length, "iter": itv}
+            lv = {"k": k, "n": length, "iter": itv, "elem": elem_of}
         for cl in spec.inv(n, entry, h, self.a_stack[-1], dict(lv, env=h.env)):
             h.assume(cl.z)
         outs: list[Out] = []
@@ -531,8 +529,19 @@ class Stmts:
 
     # try/except: only `try: BODY except E [as x]: HANDLER` --------------------------------
     def s_Try(self, s, st):
-        if s.finalbody or s.orelse:
-            raise Unsupported("try/finally or try/else")
+        if s.orelse:
+            raise Unsupported("try/else")
+        if s.finalbody:
+            # try: BODY [except ...] finally: FIN  ==  run FIN on every way out of the inner statement; if FIN completes normally the
+            # original outcome (normal / return / raise / break / continue) is resumed, otherwise FIN's outcome replaces it
+            inner = ast.Try(body=s.body, handlers=s.handlers, orelse=[], finalbody=[])
+            ast.copy_location(inner, s)
+            first = self.s_Try(inner, st) if s.handlers else self.exec_block(s.body, st)
+            outs = []
+            for o in first:
+                for f in self.exec_block(s.finalbody, o.st):
+                    outs.append(Out(o.kind, f.st, o.val) if f.kind == "normal" else f)
+            return outs
         outs: list[Out] = []
         for o in self.exec_block(s.body, st):
             if o.kind != "raise":
